@@ -1,9 +1,1057 @@
-//! C14 — placeholder while C18 is being completed.
+//! C14 — the PHY driver and the radio chip never disagree about the radio's state.
+//!
+//! Fault enumeration: every API sequence up to a depth bound x chip interrupt outcomes x one
+//! fault at every SPI / BUSY / IRQ position x a drop at every await point of the droppable
+//! waits, on emulated SX1261/62 and SX1276/72, directly on `lora_phy::LoRa` and through the
+//! LoRaWAN adapter `LorawanRadio` in the call order `async_device` uses.
+//!
+//! Oracle = the four clauses of the statement, each judged where the bad state becomes
+//! observable:
+//!  (a) a call made in the wrong mode returns an error and adds nothing to the chip transcript;
+//!  (b) no transaction other than the wake-up access reaches a sleeping chip, no TX/RX/CAD is
+//!      started from sleep (flagged by the chip model);
+//!  (c) at every TX/RX/CAD start each item that operation depends on has been programmed since
+//!      the last reset / cold sleep (per-item bits kept by the chip model);
+//!  (d) after tx/rx/complete_rx/cad (and the other calls that start an operation) returned an
+//!      error or a time-out, the chip is in STDBY and the driver's mode is Standby (documented
+//!      exception: errors while in continuous receive).
+
+use crate::bus::*;
+use crate::exec;
+use crate::rig::*;
+use lora_modulation::BaseBandModulationParams;
+use lora_phy::lorawan_radio::LorawanRadio;
+use lora_phy::mod_params::{Bandwidth, CodingRate, DutyCycleParams, ModulationParams, PacketParams, RadioError, RadioMode, RxMode, SpreadingFactor};
+use lora_phy::mod_traits::RadioKind;
+use lora_phy::LoRa;
+use lorawan_device::async_device::radio::{PhyRxTx, RfConfig, RxConfig, RxMode as WanRxMode, RxStatus, TxConfig};
 use lrv_core::*;
+
 pub struct C14;
+
+// ---- API alphabet ---------------------------------------------------------------------------
+
+#[derive(Clone, Copy, Debug, PartialEq, Eq, Hash)]
+enum Call {
+    Init,
+    SleepWarm,
+    SleepCold,
+    PrepTx,
+    Tx,
+    PrepRxSingle,
+    PrepRxCont,
+    PrepRxDuty,
+    StartRx,
+    CompleteRx,
+    Rx,
+    RxSwitch,
+    Listen,
+    PrepCad,
+    Cad,
+    SetSync,
+    GetRssi,
+    // only used by the drop generator (manual receive flow around the droppable wait)
+    WaitIrq,
+    WaitIrqCut(u32),
+    ProcessIrq,
+    GetRxResult,
+}
+
+const ALPHA: [Call; 17] = [
+    Call::Init,
+    Call::SleepWarm,
+    Call::SleepCold,
+    Call::PrepTx,
+    Call::Tx,
+    Call::PrepRxSingle,
+    Call::PrepRxCont,
+    Call::PrepRxDuty,
+    Call::StartRx,
+    Call::CompleteRx,
+    Call::Rx,
+    Call::RxSwitch,
+    Call::Listen,
+    Call::PrepCad,
+    Call::Cad,
+    Call::SetSync,
+    Call::GetRssi,
+];
+const NA: u64 = ALPHA.len() as u64;
+
+impl Call {
+    fn name(self) -> String {
+        match self {
+            Call::Init => "init".into(),
+            Call::SleepWarm => "sleep(warm)".into(),
+            Call::SleepCold => "sleep(cold)".into(),
+            Call::PrepTx => "prepare_for_tx".into(),
+            Call::Tx => "tx".into(),
+            Call::PrepRxSingle => "prepare_for_rx(single)".into(),
+            Call::PrepRxCont => "prepare_for_rx(continuous)".into(),
+            Call::PrepRxDuty => "prepare_for_rx(duty)".into(),
+            Call::StartRx => "start_rx".into(),
+            Call::CompleteRx => "complete_rx".into(),
+            Call::Rx => "rx".into(),
+            Call::RxSwitch => "rx_switch_channel".into(),
+            Call::Listen => "listen".into(),
+            Call::PrepCad => "prepare_for_cad".into(),
+            Call::Cad => "cad".into(),
+            Call::SetSync => "set_lora_sync_word".into(),
+            Call::GetRssi => "get_rssi".into(),
+            Call::WaitIrq => "wait_for_irq".into(),
+            Call::WaitIrqCut(k) => format!("wait_for_irq[dropped after {} polls]", k),
+            Call::ProcessIrq => "process_irq_event".into(),
+            Call::GetRxResult => "get_rx_result".into(),
+        }
+    }
+    /// short stable name for signatures
+    fn api(self) -> &'static str {
+        match self {
+            Call::Init => "init",
+            Call::SleepWarm | Call::SleepCold => "sleep",
+            Call::PrepTx => "prepare_for_tx",
+            Call::Tx => "tx",
+            Call::PrepRxSingle | Call::PrepRxCont | Call::PrepRxDuty => "prepare_for_rx",
+            Call::StartRx => "start_rx",
+            Call::CompleteRx => "complete_rx",
+            Call::Rx => "rx",
+            Call::RxSwitch => "rx_switch_channel",
+            Call::Listen => "listen",
+            Call::PrepCad => "prepare_for_cad",
+            Call::Cad => "cad",
+            Call::SetSync => "set_lora_sync_word",
+            Call::GetRssi => "get_rssi",
+            Call::WaitIrq | Call::WaitIrqCut(_) => "wait_for_irq",
+            Call::ProcessIrq => "process_irq_event",
+            Call::GetRxResult => "get_rx_result",
+        }
+    }
+    /// the driver mode a mode-guarded call requires (None: the call is legal in every mode)
+    fn requires(self) -> Option<&'static str> {
+        match self {
+            Call::Tx => Some("Transmit"),
+            Call::StartRx | Call::CompleteRx | Call::Rx | Call::RxSwitch | Call::GetRxResult => Some("Receive"),
+            Call::Cad => Some("ChannelActivityDetection"),
+            _ => None,
+        }
+    }
+    /// calls after whose failure clause (d) is judged: they start and/or complete a TX/RX/CAD
+    fn is_operation(self) -> bool {
+        matches!(self, Call::Tx | Call::Rx | Call::CompleteRx | Call::Cad | Call::StartRx | Call::RxSwitch | Call::Listen)
+    }
+    /// part of the statement's own API alphabet
+    fn in_statement(self) -> bool {
+        !matches!(self, Call::GetRssi)
+    }
+}
+
+// ---- chip outcome profiles --------------------------------------------------------------------
+
+#[derive(Clone, Copy, Debug, PartialEq, Eq, Hash)]
+enum Profile {
+    DoneSoon,
+    DoneAtStart,
+    DoneLate,
+    TimeoutSoon,
+    TimeoutLate,
+    CrcError,
+    HeaderError,
+    SpuriousThenDoneSoon,
+    SpuriousThenDoneLate,
+}
+
+const PROFILES: [Profile; 9] = [
+    Profile::DoneSoon,
+    Profile::DoneAtStart,
+    Profile::DoneLate,
+    Profile::TimeoutSoon,
+    Profile::TimeoutLate,
+    Profile::CrcError,
+    Profile::HeaderError,
+    Profile::SpuriousThenDoneSoon,
+    Profile::SpuriousThenDoneLate,
+];
+const NP: u64 = PROFILES.len() as u64;
+
+impl Profile {
+    fn name(self) -> &'static str {
+        match self {
+            Profile::DoneSoon => "done@1",
+            Profile::DoneAtStart => "done@0",
+            Profile::DoneLate => "done@12",
+            Profile::TimeoutSoon => "timeout@1",
+            Profile::TimeoutLate => "timeout@12",
+            Profile::CrcError => "crc-error@1",
+            Profile::HeaderError => "header-error@1",
+            Profile::SpuriousThenDoneSoon => "spurious,done+1",
+            Profile::SpuriousThenDoneLate => "spurious,done+6",
+        }
+    }
+    fn class(self) -> &'static str {
+        match self {
+            Profile::DoneSoon | Profile::DoneAtStart | Profile::DoneLate => "done",
+            Profile::TimeoutSoon | Profile::TimeoutLate => "timeout",
+            Profile::CrcError => "crc-error",
+            Profile::HeaderError => "header-error",
+            Profile::SpuriousThenDoneSoon | Profile::SpuriousThenDoneLate => "spurious",
+        }
+    }
+    /// Chip events for an operation of the given kind. Latencies avoid the window between the
+    /// driver's "read IRQ status" and "clear all IRQs" (an interrupt raised there is lost by the
+    /// driver and the call never returns; that is recorded as an observation, not a clause).
+    fn events(self, _is_126x: bool, _continuous: bool) -> Vec<Ev> {
+        // a chip can not time out in continuous receive; SX127x has no TX time-out: the model
+        // ignores such events, so give those operations a completion instead of nothing
+        match self {
+            Profile::DoneSoon => vec![ev(EvKind::Done, 1)],
+            Profile::DoneAtStart => vec![ev(EvKind::Done, 0)],
+            Profile::DoneLate => vec![ev(EvKind::Done, 12)],
+            Profile::TimeoutSoon => vec![ev(EvKind::Timeout, 1), ev(EvKind::DoneDetected, 0), ev(EvKind::Done, 0)],
+            Profile::TimeoutLate => vec![ev(EvKind::Timeout, 12), ev(EvKind::DoneDetected, 0), ev(EvKind::Done, 0)],
+            Profile::CrcError => vec![ev(EvKind::CrcError, 1), ev(EvKind::Done, 0)],
+            Profile::HeaderError => vec![ev(EvKind::HeaderError, 1), ev(EvKind::Timeout, 6), ev(EvKind::Done, 0)],
+            Profile::SpuriousThenDoneSoon => vec![ev(EvKind::Spurious, 1), ev(EvKind::Done, 1)],
+            Profile::SpuriousThenDoneLate => vec![ev(EvKind::Spurious, 1), ev(EvKind::Done, 6)],
+        }
+    }
+}
+
+// ---- one run ----------------------------------------------------------------------------------
+
+#[derive(Clone, Debug)]
+enum Res {
+    Ok,
+    Err(String),
+    Panic(String, String, String),
+    NoReturn,
+    Dropped,
+}
+
+impl Res {
+    fn name(&self) -> String {
+        match self {
+            Res::Ok => "Ok".into(),
+            Res::Err(e) => format!("Err({})", e),
+            Res::Panic(m, l, _) => format!("panic({} at {})", m, l),
+            Res::NoReturn => "no return within the poll budget".into(),
+            Res::Dropped => "future dropped".into(),
+        }
+    }
+    fn failed(&self) -> bool {
+        matches!(self, Res::Err(_) | Res::Panic(..))
+    }
+}
+
+#[derive(Clone)]
+struct Plan {
+    var: Var,
+    calls: Vec<Call>,
+    /// profile index offset: call j gets PROFILES[(ovar + j) % NP]
+    ovar: u64,
+    fault: Option<Fault>,
+    /// probe suffix appended (prepare_for_tx, tx, prepare_for_rx, rx) to make bad state observable
+    suffix: bool,
+}
+
+struct RunOut {
+    n_spi: u32,
+    n_busy: u32,
+    n_irq: u32,
+    /// index of the call during which the fault was delivered
+    fault_call: Option<usize>,
+    fault_cmd: u8,
+}
+
+struct Found {
+    sig: String,
+    what: String,
+    detail: Value,
+}
+
+struct Driver<'a, RK: RadioKind, C: Probe> {
+    var: Var,
+    lora: LoRa<RK, Delay<C>>,
+    bus: Bus<C>,
+    mdl: ModulationParams,
+    tx_pkt: PacketParams,
+    rx_pkt: PacketParams,
+    rxbuf: [u8; 255],
+    col: &'a mut Collector,
+    found: Vec<Found>,
+    log: Vec<String>,
+    /// configuration losses of the chip before the sequence started (construction resets once)
+    losses_base: u32,
+}
+
+fn err_variant(e: &RadioError) -> String {
+    let s = format!("{:?}", e);
+    s.split('(').next().unwrap_or("").to_string()
+}
+
+impl<'a, RK: RadioKind, C: Probe> Driver<'a, RK, C> {
+    fn mode(&self) -> RadioMode {
+        self.lora.verif_radio_mode()
+    }
+
+    fn exec_raw(&mut self, call: Call) -> Res {
+        let budget = exec::POLL_BUDGET;
+        let lora = &mut self.lora;
+        let mdl = &self.mdl;
+        let tx_pkt = &mut self.tx_pkt;
+        let rx_pkt = &self.rx_pkt;
+        let rxbuf = &mut self.rxbuf;
+        let r: Result<Result<Option<Result<(), RadioError>>, u64>, Trapped> = trap(|| {
+            let full = |x: Result<(Result<(), RadioError>, u64), u64>| x.map(|(r, _)| Some(r));
+            match call {
+                Call::Init => full(exec::run(lora.init(), budget)),
+                Call::SleepWarm => full(exec::run(lora.sleep(true), budget)),
+                Call::SleepCold => full(exec::run(lora.sleep(false), budget)),
+                Call::PrepTx => full(exec::run(lora.prepare_for_tx(mdl, tx_pkt, 14, &[0xA1, 0xB2, 0xC3, 0xD4, 0xE5]), budget)),
+                Call::Tx => full(exec::run(lora.tx(), budget)),
+                Call::PrepRxSingle => full(exec::run(lora.prepare_for_rx(RxMode::Single(12), mdl, rx_pkt), budget)),
+                Call::PrepRxCont => full(exec::run(lora.prepare_for_rx(RxMode::Continuous, mdl, rx_pkt), budget)),
+                Call::PrepRxDuty => full(exec::run(lora.prepare_for_rx(RxMode::DutyCycle(DutyCycleParams { rx_time: 1000, sleep_time: 2000 }), mdl, rx_pkt), budget)),
+                Call::StartRx => full(exec::run(lora.start_rx(), budget)),
+                Call::CompleteRx => full(exec::run(async { lora.complete_rx(rx_pkt, rxbuf).await.map(|_| ()) }, budget)),
+                Call::Rx => full(exec::run(async { lora.rx(rx_pkt, rxbuf).await.map(|_| ()) }, budget)),
+                Call::RxSwitch => full(exec::run(lora.rx_switch_channel(868_300_000), budget)),
+                Call::Listen => full(exec::run(lora.listen(868_100_000, Bandwidth::_125KHz), budget)),
+                Call::PrepCad => full(exec::run(lora.prepare_for_cad(mdl), budget)),
+                Call::Cad => full(exec::run(async { lora.cad(mdl).await.map(|_| ()) }, budget)),
+                Call::SetSync => full(exec::run(lora.set_lora_sync_word(0x1424), budget)),
+                Call::GetRssi => full(exec::run(async { lora.get_rssi().await.map(|_| ()) }, budget)),
+                Call::WaitIrq => full(exec::run(lora.wait_for_irq(), budget)),
+                Call::WaitIrqCut(k) => Ok(exec::run_cut(lora.wait_for_irq(), k as u64)),
+                Call::ProcessIrq => full(exec::run(async { lora.process_irq_event().await.map(|_| ()) }, budget)),
+                Call::GetRxResult => full(exec::run(async { lora.get_rx_result(rx_pkt, rxbuf).await.map(|_| ()) }, budget)),
+            }
+        });
+        match r {
+            Err(t) => Res::Panic(t.msg.clone(), t.loc.clone(), format!("{}|{}", t.file(), t.kind())),
+            Ok(Err(_)) => Res::NoReturn,
+            Ok(Ok(None)) => Res::Dropped,
+            Ok(Ok(Some(Ok(())))) => Res::Ok,
+            Ok(Ok(Some(Err(e)))) => Res::Err(format!("{:?}", e)),
+        }
+    }
+
+    /// Executes one API call and judges it. Returns false when the run must stop.
+    fn step(&mut self, j: usize, call: Call, profile: Profile, plan_json: &dyn Fn() -> Value) -> bool {
+        let before = self.mode();
+        let before_name = mode_name(before);
+        let continuous = before == RadioMode::Receive(RxMode::Continuous) || call == Call::Listen;
+        let (t0, a0, o0) = {
+            let mut sh = self.bus.borrow_mut();
+            sh.chip.set_default_outcome(profile.events(self.var.is_126x(), continuous));
+            sh.chip.set_next_packet(Some(vec![0x60, 1, 2, 3, 4, 5, 6]));
+            (sh.chip.transcript().len(), sh.chip.alarms().len(), sh.chip.op_starts().len())
+        };
+        let fault_before = self.bus.borrow().fault_hit.is_some();
+        let res = self.exec_raw(call);
+        let after = self.mode();
+        let after_name = mode_name(after);
+        let sh = self.bus.borrow();
+        let chip_mode = sh.chip.mode();
+        let t1 = sh.chip.transcript().len();
+        let fault_now = sh.fault_hit.is_some() && !fault_before;
+        let fault_kind = if fault_now { sh.fault.map(|f| f.kind) } else { None };
+        self.log.push(format!("{} [{}] -> {} | driver {} -> {} | chip {}", call.name(), profile.name(), res.name(), before_name, after_name, chip_mode.name()));
+        // evidence: distinct (driver mode, chip mode, programmed items, cold_start)
+        self.col.state(fnv64(format!("{}|{}|{:x}|{}", after_name, chip_mode.name(), sh.chip.prog(), self.lora.verif_cold_start()).as_bytes()));
+        let fam = self.var.family();
+        let mk_detail = |extra: Value| -> Value {
+            json!({
+                "plan": plan_json(), "failing_call_index": j, "failing_call": call.name(), "outcome_profile": profile.name(),
+                "result": res.name(), "driver_mode_before": before_name, "driver_mode_after": after_name,
+                "driver_cold_start_flag": self.lora.verif_cold_start(), "chip_mode_after": chip_mode.name(),
+                "chip_items_programmed": item::names(sh.chip.prog()), "observed": extra, "history": self.log,
+                "transcript_of_call": transcript_json(&sh.chip.transcript()[..t1.min(t0 + 80)], t0),
+            })
+        };
+        let mut stop = false;
+
+        // ---- (a) wrong-mode call --------------------------------------------------------------
+        let mut refused = false;
+        if let Some(req) = call.requires() {
+            if !before_name.starts_with(req) {
+                let is_refusal = matches!(&res, Res::Err(e) if e == "InvalidRadioMode");
+                refused = is_refusal && t1 == t0;
+                self.col.event("wrong_mode_calls");
+                if !is_refusal {
+                    self.found.push(Found {
+                        sig: format!("C14|{}|a|{}|mode={}|not-refused", fam, call.api(), before_name),
+                        what: "a call made in the wrong mode was not refused with an error".into(),
+                        detail: mk_detail(json!({"required_mode": req})),
+                    });
+                } else if t1 != t0 {
+                    self.found.push(Found {
+                        sig: format!("C14|{}|a|{}|mode={}|commanded-chip", fam, call.api(), before_name),
+                        what: "a call refused for its mode still sent transactions to the chip".into(),
+                        detail: mk_detail(json!({"required_mode": req, "transactions": t1 - t0})),
+                    });
+                }
+            }
+        }
+
+        // ---- (b) chip commanded while asleep ----------------------------------------------------
+        for al in sh.chip.alarms()[a0..].iter() {
+            if !call.in_statement() {
+                // get_rssi is not in the statement's API alphabet: observation only
+                self.col.event("observed_get_rssi_reaching_a_sleeping_chip");
+                stop = true;
+                continue;
+            }
+            let kind = match al {
+                Alarm::CommandWhileAsleep(op) => format!("command-0x{:02x}-while-asleep", op),
+                Alarm::OpStartFromSleep(k) => format!("{:?}-start-from-sleep", k).to_lowercase(),
+                Alarm::FifoInSleep => "fifo-access-in-sleep".into(),
+            };
+            self.col.event("alarm_b");
+            self.found.push(Found {
+                sig: format!("C14|{}|b|{}|{}|driver={}", fam, kind, call.api(), before_name),
+                what: "the chip was commanded while asleep without being woken first".into(),
+                detail: mk_detail(json!({"chip_alarm": format!("{:?}", al)})),
+            });
+        }
+
+        // ---- (c) everything programmed before an operation starts --------------------------------
+        for os in sh.chip.op_starts()[o0..].iter() {
+            self.col.event(match os.kind {
+                OpKind::Tx => "tx_starts",
+                OpKind::Rx => "rx_starts",
+                OpKind::Cad => "cad_starts",
+            });
+            let board = self.var.board_items();
+            let required = match (call, os.kind) {
+                // an RSSI listen depends on the band/bandwidth only
+                (Call::Listen, _) => item::PKT_TYPE | item::MODULATION | item::FREQ | board,
+                (_, OpKind::Cad) => item::PKT_TYPE | item::MODULATION | item::IRQ | item::FREQ | board,
+                _ => item::PKT_TYPE | item::SYNC | item::BUF_BASE | item::MODULATION | item::PKT_PARAMS | item::IRQ | item::FREQ | board,
+            };
+            let missing = os.missing & required;
+            if sh.chip.losses() > self.losses_base {
+                self.col.event("op_starts_after_a_configuration_loss");
+            }
+            if missing != 0 && call.in_statement() {
+                self.col.event("alarm_c");
+                self.found.push(Found {
+                    sig: format!("C14|{}|c|{:?}-start|{}|missing={}", fam, os.kind, call.api(), item::names(missing)).to_lowercase(),
+                    what: "an operation was started although configuration it depends on had not been programmed since the last reset / cold sleep".into(),
+                    detail: mk_detail(json!({"operation": format!("{:?}", os.kind), "missing_items": item::names(missing), "chip_mode_at_start": os.from.name()})),
+                });
+            }
+        }
+
+        // ---- (d) after a failed or timed-out operation --------------------------------------------
+        if call.is_operation() && res.failed() && !refused {
+            let documented_exception = before == RadioMode::Receive(RxMode::Continuous) && matches!(call, Call::CompleteRx | Call::Rx);
+            self.col.event("failed_operations");
+            if documented_exception {
+                self.col.event("failed_operations_in_continuous_rx(exception)");
+            } else {
+                let chip_ok = chip_mode.is_standby();
+                let driver_ok = after == RadioMode::Standby;
+                // did the driver try to force standby after the failure point?
+                let from = sh.fault_hit.filter(|_| fault_now).unwrap_or(t0).max(t0);
+                let attempted = sh.chip.transcript()[from.min(t1)..t1].iter().any(|x| is_standby_cmd(self.var, &x.mosi));
+                let origin = match (&res, fault_kind) {
+                    (Res::Panic(_, _, k), _) => format!("panic:{}", k),
+                    (Res::Err(e), Some(k)) => format!("fault:{:?}->{}", k, e.split('(').next().unwrap_or("")).to_lowercase(),
+                    (Res::Err(e), None) => format!("chip:{}->{}", profile.class(), e.split('(').next().unwrap_or("")),
+                    _ => String::new(),
+                };
+                if !chip_ok {
+                    self.col.event("alarm_d_chip");
+                    self.found.push(Found {
+                        sig: format!("C14|{}|d|chip-not-in-standby|{}|{}|standby-{}", fam, call.api(), origin, if attempted { "attempted" } else { "not-attempted" }),
+                        what: "after a failed or timed-out operation the chip was not left in standby".into(),
+                        detail: mk_detail(json!({"chip_mode": chip_mode.name()})),
+                    });
+                } else if !driver_ok {
+                    self.col.event("alarm_d_driver");
+                    self.found.push(Found {
+                        sig: format!("C14|{}|d|driver-not-standby|{}|{}|standby-{}|driver={}", fam, call.api(), origin, if attempted { "attempted" } else { "not-attempted" }, after_name),
+                        what: "after a failed or timed-out operation the chip is in standby but the driver's mode is not Standby".into(),
+                        detail: mk_detail(json!({"chip_mode": chip_mode.name()})),
+                    });
+                } else {
+                    self.col.event("failed_operations_left_in_standby");
+                }
+            }
+        }
+        match &res {
+            Res::NoReturn => {
+                // not one of the four clauses: recorded as an observation, the run ends here
+                self.col.event("no_return_within_poll_budget");
+                let key = format!("no_return|{}|{}|chip={}", call.api(), before_name, chip_mode.name());
+                if !self.col.notes.contains_key(&key) && self.col.notes.len() < 40 {
+                    let d = mk_detail(json!(null));
+                    self.col.notes.insert(key, d);
+                }
+                stop = true;
+            }
+            Res::Panic(_, loc, _) => {
+                self.col.event("panics");
+                if loc.contains("lrv-") || loc.contains("/verif/") {
+                    self.col.event("harness_panic");
+                }
+                stop = true;
+            }
+            Res::Err(_) => self.col.event("calls_err"),
+            Res::Ok => self.col.event("calls_ok"),
+            Res::Dropped => self.col.event("waits_dropped"),
+        }
+        !stop
+    }
+}
+
+fn is_standby_cmd(var: Var, mosi: &[u8]) -> bool {
+    if var.is_126x() {
+        mosi.first() == Some(&crate::chip126x::SET_STANDBY)
+    } else {
+        mosi.len() >= 2 && mosi[0] == (crate::chip127x::REG_OP_MODE | 0x80) && mosi[1] & 7 == crate::chip127x::MODE_STDBY
+    }
+}
+
+const SUFFIX: [Call; 4] = [Call::PrepTx, Call::Tx, Call::PrepRxSingle, Call::Rx];
+
+struct RunPlan<'a> {
+    plan: &'a Plan,
+    col: &'a mut Collector,
+}
+
+impl<'a> Visitor for RunPlan<'a> {
+    type Out = Option<RunOut>;
+    fn visit<RK: RadioKind, C: Probe>(self, var: Var, rk: RK, bus: Bus<C>) -> Option<RunOut> {
+        let RunPlan { plan, col } = self;
+        let mut lora = match new_lora(rk, &bus) {
+            Ok(l) => l,
+            Err(e) => {
+                col.event("harness_setup_failed");
+                col.notes.entry("harness_setup_failed".into()).or_insert(json!(e));
+                return None;
+            }
+        };
+        let params = (|| {
+            let mdl = lora.create_modulation_params(SpreadingFactor::_7, Bandwidth::_125KHz, CodingRate::_4_5, 868_100_000)?;
+            let tx = lora.create_tx_packet_params(8, false, true, false, &mdl)?;
+            let rx = lora.create_rx_packet_params(8, false, 255, true, true, &mdl)?;
+            Ok::<_, RadioError>((mdl, tx, rx))
+        })();
+        let Ok((mdl, tx_pkt, rx_pkt)) = params else {
+            col.event("harness_setup_failed");
+            return None;
+        };
+        {
+            let mut sh = bus.borrow_mut();
+            sh.chip.clear_transcript();
+            sh.arm(plan.fault);
+        }
+        let losses_base = bus.borrow().chip.losses();
+        let mut d = Driver { var, lora, bus: bus.clone(), mdl, tx_pkt, rx_pkt, rxbuf: [0; 255], col, found: vec![], log: vec![], losses_base };
+        let plan_json = || {
+            json!({
+                "chip": plan.var.name(),
+                "calls": plan.calls.iter().map(|c| c.name()).collect::<Vec<_>>(),
+                "profiles": (0..plan.calls.len()).map(|j| PROFILES[((plan.ovar + j as u64) % NP) as usize].name()).collect::<Vec<_>>(),
+                "fault": plan.fault.map(|f| format!("{:?} fault at #{} (counted from the first call of the sequence)", f.kind, f.at)),
+                "probe_suffix": plan.suffix,
+            })
+        };
+        let mut fault_call = None;
+        let mut alive = true;
+        for (j, c) in plan.calls.iter().enumerate() {
+            let p = PROFILES[((plan.ovar + j as u64) % NP) as usize];
+            alive = d.step(j, *c, p, &plan_json);
+            if fault_call.is_none() && d.bus.borrow().fault_hit.is_some() {
+                fault_call = Some(j);
+            }
+            if !alive {
+                break;
+            }
+        }
+        if alive && plan.suffix {
+            for (k, c) in SUFFIX.iter().enumerate() {
+                let j = plan.calls.len() + k;
+                if !d.step(j, *c, Profile::DoneSoon, &plan_json) {
+                    break;
+                }
+                if fault_call.is_none() && d.bus.borrow().fault_hit.is_some() {
+                    fault_call = Some(j);
+                }
+            }
+        }
+        let found = std::mem::take(&mut d.found);
+        let out = {
+            let sh = d.bus.borrow();
+            RunOut { n_spi: sh.n_spi, n_busy: sh.n_busy, n_irq: sh.n_irq, fault_call, fault_cmd: sh.last_cmd }
+        };
+        let col = d.col;
+        for f in found {
+            col.violation(&f.sig, &f.what, f.detail);
+        }
+        Some(out)
+    }
+}
+
+fn seq_from_index(mut i: u64, depth: u32) -> Vec<Call> {
+    let mut v = Vec::with_capacity(depth as usize);
+    for _ in 0..depth {
+        v.push(ALPHA[(i % NA) as usize]);
+        i /= NA;
+    }
+    v.reverse();
+    v
+}
+
+fn seq_name(calls: &[Call]) -> String {
+    calls.iter().map(|c| c.name()).collect::<Vec<_>>().join(",")
+}
+
+fn unsupported(var: Var, calls: &[Call]) -> bool {
+    // receive duty cycle does not exist on SX127x (documented by the driver)
+    !var.is_126x() && calls.contains(&Call::PrepRxDuty)
+}
+
+fn run_plain(plan: &Plan, col: &mut Collector) -> Option<RunOut> {
+    let out = with_var(plan.var, RunPlan { plan, col });
+    let fc = match (&plan.fault, &out) {
+        (Some(f), Some(o)) => format!("{:?}@call{}:{:02x}", f.kind, o.fault_call.map(|x| x as i64).unwrap_or(-1), o.fault_cmd),
+        _ => "none".into(),
+    };
+    col.eval(&format!("{}|{}|{}|{}", plan.var.name(), seq_name(&plan.calls), plan.ovar, fc));
+    out
+}
+
+/// One base sequence, then one run per fault position of every kind.
+fn run_with_all_faults(base: &Plan, col: &mut Collector, stride: u32) {
+    let Some(k) = run_plain(base, col) else { return };
+    let kinds: &[(FaultKind, u32)] = &[(FaultKind::Spi, k.n_spi), (FaultKind::Busy, if base.var.is_126x() { k.n_busy } else { 0 }), (FaultKind::Irq, k.n_irq)];
+    for (kind, n) in kinds {
+        let mut at = 1;
+        while at <= *n {
+            let mut p = base.clone();
+            p.fault = Some(Fault { kind: *kind, at });
+            if let Some(o) = run_plain(&p, col) {
+                col.event(match kind {
+                    FaultKind::Spi => "spi_faults_injected",
+                    FaultKind::Busy => "busy_faults_injected",
+                    FaultKind::Irq => "irq_faults_injected",
+                });
+                if o.fault_call.is_none() {
+                    col.event("fault_not_reached");
+                }
+            }
+            at += stride;
+        }
+    }
+}
+
+// ---- droppable wait: manual receive flow --------------------------------------------------------
+
+const DROP_PRE: [&[Call]; 4] = [&[Call::PrepRxSingle, Call::StartRx], &[Call::PrepRxCont, Call::StartRx], &[Call::PrepTx], &[Call::SleepCold]];
+const DROP_POST: [&[Call]; 7] = [
+    &[Call::ProcessIrq, Call::GetRxResult],
+    &[Call::CompleteRx],
+    &[Call::PrepTx, Call::Tx],
+    &[Call::SleepCold, Call::PrepTx, Call::Tx],
+    &[Call::RxSwitch, Call::CompleteRx],
+    &[Call::WaitIrq, Call::ProcessIrq, Call::GetRxResult],
+    &[Call::SleepWarm, Call::PrepRxSingle, Call::Rx],
+];
+const DROP_KS: u64 = 16;
+
+// ---- through the LoRaWAN adapter ----------------------------------------------------------------
+
+#[derive(Clone, Copy, Debug, PartialEq, Eq)]
+enum Wan {
+    Tx,
+    LowPower,
+    SetupRx1,
+    SetupRx2,
+    SetupRxc,
+    RxSingle,
+    /// rx_continuous, dropped after this many polls (as `select` with the window timer does)
+    RxContinuousCut(u32),
+    /// rx_continuous that completes with a frame
+    RxContinuous,
+}
+
+impl Wan {
+    fn name(self) -> String {
+        match self {
+            Wan::Tx => "tx".into(),
+            Wan::LowPower => "low_power".into(),
+            Wan::SetupRx1 => "setup_rx(RX1 single)".into(),
+            Wan::SetupRx2 => "setup_rx(RX2 single)".into(),
+            Wan::SetupRxc => "setup_rx(RXC continuous)".into(),
+            Wan::RxSingle => "rx_single".into(),
+            Wan::RxContinuousCut(k) => format!("rx_continuous[dropped after {} polls]", k),
+            Wan::RxContinuous => "rx_continuous".into(),
+        }
+    }
+    fn api(self) -> &'static str {
+        match self {
+            Wan::Tx => "tx",
+            Wan::LowPower => "low_power",
+            Wan::SetupRx1 | Wan::SetupRx2 | Wan::SetupRxc => "setup_rx",
+            Wan::RxSingle => "rx_single",
+            Wan::RxContinuousCut(_) | Wan::RxContinuous => "rx_continuous",
+        }
+    }
+}
+
+/// Class A: uplink, sleep, RX1, sleep, RX2, sleep — twice.
+const FLOW_A: [Wan; 14] = [
+    Wan::Tx, Wan::LowPower, Wan::SetupRx1, Wan::RxSingle, Wan::LowPower, Wan::SetupRx2, Wan::RxSingle, Wan::LowPower,
+    Wan::Tx, Wan::LowPower, Wan::SetupRx1, Wan::RxSingle, Wan::LowPower, Wan::Tx,
+];
+
+/// Class C: uplink, RXC (cut by the window timer), RX1, RXC (cut), RX2, RXC (frame), RXC (cut by the next uplink), uplink.
+fn flow_c(cuts: [u32; 3]) -> Vec<Wan> {
+    vec![
+        Wan::Tx, Wan::SetupRxc, Wan::RxContinuousCut(cuts[0]), Wan::SetupRx1, Wan::RxSingle, Wan::SetupRxc, Wan::RxContinuousCut(cuts[1]), Wan::SetupRx2, Wan::RxSingle,
+        Wan::SetupRxc, Wan::RxContinuous, Wan::RxContinuousCut(cuts[2]), Wan::Tx, Wan::SetupRxc, Wan::RxContinuous, Wan::LowPower, Wan::Tx,
+    ]
+}
+
+struct WanPlan {
+    var: Var,
+    steps: Vec<Wan>,
+    ovar: u64,
+    fault: Option<Fault>,
+}
+
+struct RunWan<'a> {
+    plan: &'a WanPlan,
+    col: &'a mut Collector,
+}
+
+impl<'a> Visitor for RunWan<'a> {
+    type Out = Option<RunOut>;
+    fn visit<RK: RadioKind, C: Probe>(self, var: Var, rk: RK, bus: Bus<C>) -> Option<RunOut> {
+        let RunWan { plan, col } = self;
+        let lora = match new_lora(rk, &bus) {
+            Ok(l) => l,
+            Err(_) => {
+                col.event("harness_setup_failed");
+                return None;
+            }
+        };
+        let mut radio: LorawanRadio<RK, Delay<C>, 22> = lora.into();
+        {
+            let mut sh = bus.borrow_mut();
+            sh.chip.clear_transcript();
+            sh.arm(plan.fault);
+        }
+        let bb = BaseBandModulationParams::new(SpreadingFactor::_7, Bandwidth::_125KHz, CodingRate::_4_5);
+        let bb2 = BaseBandModulationParams::new(SpreadingFactor::_9, Bandwidth::_125KHz, CodingRate::_4_5);
+        let rf1 = RfConfig { frequency: 868_100_000, bb, max_payload_len: 255 };
+        let rf2 = RfConfig { frequency: 869_525_000, bb: bb2, max_payload_len: 255 };
+        let fam = var.family();
+        let losses_base = bus.borrow().chip.losses();
+        let mut log: Vec<String> = vec![];
+        let mut buf = [0u8; 255];
+        let mut fault_call = None;
+        let mut last_setup_continuous = false;
+        for (j, st) in plan.steps.iter().enumerate() {
+            let profile = PROFILES[((plan.ovar + j as u64) % NP) as usize];
+            let (t0, a0, o0) = {
+                let mut sh = bus.borrow_mut();
+                let evs = if matches!(st, Wan::RxContinuousCut(_)) { vec![] } else { profile.events(var.is_126x(), last_setup_continuous) };
+                sh.chip.set_default_outcome(evs);
+                sh.chip.set_next_packet(Some(vec![0x60, 9, 8, 7, 6, 5, 4, 3]));
+                (sh.chip.transcript().len(), sh.chip.alarms().len(), sh.chip.op_starts().len())
+            };
+            let fault_before = bus.borrow().fault_hit.is_some();
+            let budget = exec::POLL_BUDGET;
+            // Ok(Some(text)) finished; Ok(None) dropped; Err(..) no return
+            let r: Result<Result<Option<Result<&'static str, String>>, u64>, Trapped> = trap(|| match st {
+                Wan::Tx => exec::run(radio.tx(TxConfig { pw: 14, rf: rf1 }, &[0x40, 1, 2, 3, 4, 5, 6, 7, 8, 9, 10, 11, 12]), budget).map(|(r, _)| Some(r.map(|_| "Ok").map_err(|e| format!("{:?}", e)))),
+                Wan::LowPower => exec::run(radio.low_power(), budget).map(|(r, _)| Some(r.map(|_| "Ok").map_err(|e| format!("{:?}", e)))),
+                Wan::SetupRx1 => exec::run(radio.setup_rx(RxConfig { rf: rf1, mode: WanRxMode::Single { ms: 20 } }), budget).map(|(r, _)| Some(r.map(|_| "Ok").map_err(|e| format!("{:?}", e)))),
+                Wan::SetupRx2 => exec::run(radio.setup_rx(RxConfig { rf: rf2, mode: WanRxMode::Single { ms: 20 } }), budget).map(|(r, _)| Some(r.map(|_| "Ok").map_err(|e| format!("{:?}", e)))),
+                Wan::SetupRxc => exec::run(radio.setup_rx(RxConfig { rf: rf2, mode: WanRxMode::Continuous }), budget).map(|(r, _)| Some(r.map(|_| "Ok").map_err(|e| format!("{:?}", e)))),
+                Wan::RxSingle => exec::run(radio.rx_single(&mut buf), budget).map(|(r, _)| {
+                    Some(match r {
+                        Ok(RxStatus::Rx(..)) => Ok("Rx"),
+                        Ok(RxStatus::RxTimeout) => Ok("RxTimeout"),
+                        Err(e) => Err(format!("{:?}", e)),
+                    })
+                }),
+                Wan::RxContinuous => exec::run(radio.rx_continuous(&mut buf), budget).map(|(r, _)| Some(r.map(|_| "Rx").map_err(|e| format!("{:?}", e)))),
+                Wan::RxContinuousCut(k) => Ok(exec::run_cut(radio.rx_continuous(&mut buf), *k as u64).map(|r| r.map(|_| "Rx").map_err(|e| format!("{:?}", e)))),
+            });
+            match st {
+                Wan::SetupRxc => last_setup_continuous = true,
+                Wan::SetupRx1 | Wan::SetupRx2 => last_setup_continuous = false,
+                _ => {}
+            }
+            let sh = bus.borrow();
+            let chip_mode = sh.chip.mode();
+            let t1 = sh.chip.transcript().len();
+            let fault_now = sh.fault_hit.is_some() && !fault_before;
+            if fault_now {
+                fault_call = Some(j);
+            }
+            let res_name = match &r {
+                Err(t) => format!("panic({} at {})", t.msg, t.loc),
+                Ok(Err(_)) => "no return within the poll budget".into(),
+                Ok(Ok(None)) => "future dropped".into(),
+                Ok(Ok(Some(Ok(s)))) => format!("Ok({})", s),
+                Ok(Ok(Some(Err(e)))) => format!("Err({})", e),
+            };
+            log.push(format!("{} [{}] -> {} | chip {}", st.name(), profile.name(), res_name, chip_mode.name()));
+            col.state(fnv64(format!("wan|{}|{:x}", chip_mode.name(), sh.chip.prog()).as_bytes()));
+            let mk_detail = |extra: Value| -> Value {
+                json!({
+                    "chip": var.name(), "adapter_steps": plan.steps.iter().map(|s| s.name()).collect::<Vec<_>>(),
+                    "profiles": (0..plan.steps.len()).map(|j| PROFILES[((plan.ovar + j as u64) % NP) as usize].name()).collect::<Vec<_>>(),
+                    "fault": plan.fault.map(|f| format!("{:?} fault at #{}", f.kind, f.at)),
+                    "failing_step_index": j, "failing_step": st.name(), "result": res_name, "chip_mode_after": chip_mode.name(),
+                    "chip_items_programmed": item::names(sh.chip.prog()), "observed": extra, "history": log,
+                    "transcript_of_step": transcript_json(&sh.chip.transcript()[..t1.min(t0 + 80)], t0),
+                })
+            };
+            for al in sh.chip.alarms()[a0..].iter() {
+                let kind = match al {
+                    Alarm::CommandWhileAsleep(op) => format!("command-0x{:02x}-while-asleep", op),
+                    Alarm::OpStartFromSleep(k) => format!("{:?}-start-from-sleep", k).to_lowercase(),
+                    Alarm::FifoInSleep => "fifo-access-in-sleep".into(),
+                };
+                col.event("alarm_b");
+                col.violation(&format!("C14|{}|b|{}|adapter.{}", fam, kind, st.api()), "the chip was commanded while asleep without being woken first (through the LoRaWAN adapter)", mk_detail(json!({"chip_alarm": format!("{:?}", al)})));
+            }
+            for os in sh.chip.op_starts()[o0..].iter() {
+                col.event(match os.kind {
+                    OpKind::Tx => "tx_starts",
+                    OpKind::Rx => "rx_starts",
+                    OpKind::Cad => "cad_starts",
+                });
+                col.event("adapter_op_starts");
+                if sh.chip.losses() > losses_base {
+                    col.event("op_starts_after_a_configuration_loss");
+                }
+                let required = item::PKT_TYPE | item::SYNC | item::BUF_BASE | item::MODULATION | item::PKT_PARAMS | item::IRQ | item::FREQ | var.board_items();
+                let missing = os.missing & required;
+                if missing != 0 {
+                    col.event("alarm_c");
+                    col.violation(
+                        &format!("C14|{}|c|{:?}-start|adapter.{}|missing={}", fam, os.kind, st.api(), item::names(missing)).to_lowercase(),
+                        "an operation was started although configuration it depends on had not been programmed since the last reset / cold sleep (through the LoRaWAN adapter)",
+                        mk_detail(json!({"missing_items": item::names(missing)})),
+                    );
+                }
+            }
+            // (d): only the chip side is observable through the adapter
+            let failed = matches!(&r, Err(_) | Ok(Ok(Some(Err(_))))) || matches!(&r, Ok(Ok(Some(Ok("RxTimeout")))));
+            if failed && matches!(st, Wan::Tx | Wan::RxSingle) {
+                col.event("failed_operations");
+                if !chip_mode.is_standby() {
+                    let from = sh.fault_hit.filter(|_| fault_now).unwrap_or(t0).max(t0);
+                    let attempted = sh.chip.transcript()[from.min(t1)..t1].iter().any(|x| is_standby_cmd(var, &x.mosi));
+                    let origin = match (&r, fault_now) {
+                        (Err(t), _) => format!("panic:{}|{}", t.file(), t.kind()),
+                        (_, true) => format!("fault:{:?}", plan.fault.map(|f| f.kind)).to_lowercase(),
+                        _ => format!("chip:{}", profile.class()),
+                    };
+                    col.event("alarm_d_chip");
+                    col.violation(
+                        &format!("C14|{}|d|chip-not-in-standby|adapter.{}|{}|standby-{}", fam, st.api(), origin, if attempted { "attempted" } else { "not-attempted" }),
+                        "after a failed or timed-out operation the chip was not left in standby (through the LoRaWAN adapter)",
+                        mk_detail(json!({"chip_mode": chip_mode.name()})),
+                    );
+                } else {
+                    col.event("failed_operations_left_in_standby");
+                }
+            }
+            let stop = match &r {
+                Err(_) => {
+                    col.event("panics");
+                    true
+                }
+                Ok(Err(_)) => {
+                    col.event("no_return_within_poll_budget");
+                    let key = format!("no_return|adapter.{}|chip={}", st.api(), chip_mode.name());
+                    if !col.notes.contains_key(&key) && col.notes.len() < 40 {
+                        let d = mk_detail(json!(null));
+                        col.notes.insert(key, d);
+                    }
+                    true
+                }
+                Ok(Ok(None)) => {
+                    col.event("waits_dropped");
+                    false
+                }
+                Ok(Ok(Some(Ok(_)))) => {
+                    col.event("calls_ok");
+                    false
+                }
+                Ok(Ok(Some(Err(_)))) => {
+                    col.event("calls_err");
+                    false
+                }
+            };
+            drop(sh);
+            if stop {
+                break;
+            }
+        }
+        let sh = bus.borrow();
+        Some(RunOut { n_spi: sh.n_spi, n_busy: sh.n_busy, n_irq: sh.n_irq, fault_call, fault_cmd: sh.last_cmd })
+    }
+}
+
+fn run_wan(plan: &WanPlan, col: &mut Collector) -> Option<RunOut> {
+    let out = with_var(plan.var, RunWan { plan, col });
+    let fc = match (&plan.fault, &out) {
+        (Some(f), Some(o)) => format!("{:?}@step{}:{:02x}", f.kind, o.fault_call.map(|x| x as i64).unwrap_or(-1), o.fault_cmd),
+        _ => "none".into(),
+    };
+    let steps: Vec<String> = plan.steps.iter().map(|s| s.name()).collect();
+    col.eval(&format!("wan|{}|{}|{}|{}", plan.var.name(), steps.join(","), plan.ovar, fc));
+    out
+}
+
+fn run_wan_with_all_faults(base: &WanPlan, col: &mut Collector) {
+    let Some(k) = run_wan(base, col) else { return };
+    let kinds: &[(FaultKind, u32)] = &[(FaultKind::Spi, k.n_spi), (FaultKind::Busy, if base.var.is_126x() { k.n_busy } else { 0 }), (FaultKind::Irq, k.n_irq)];
+    for (kind, n) in kinds {
+        for at in 1..=*n {
+            let p = WanPlan { var: base.var, steps: base.steps.clone(), ovar: base.ovar, fault: Some(Fault { kind: *kind, at }) };
+            if run_wan(&p, col).is_some() {
+                col.event(match kind {
+                    FaultKind::Spi => "spi_faults_injected",
+                    FaultKind::Busy => "busy_faults_injected",
+                    FaultKind::Irq => "irq_faults_injected",
+                });
+                col.event("adapter_faults_injected");
+            }
+        }
+    }
+}
+
+// ---- the monitor ----------------------------------------------------------------------------------
+
+fn pow(d: u32) -> u64 {
+    NA.pow(d)
+}
+
 impl Monitor for C14 {
-    fn prop(&self) -> &'static str { "C14" }
-    fn gens(&self, _t: Tier) -> Vec<Gen> { vec![] }
-    fn run_case(&self, _g: &str, _i: u64, _r: &mut Prng, _c: &mut Collector) {}
-    fn rule(&self) -> String { String::new() }
+    fn prop(&self) -> &'static str {
+        "C14"
+    }
+    fn gens(&self, tier: Tier) -> Vec<Gen> {
+        let mut v = vec![];
+        // all sequences of exactly d calls x 4 chips x 9 outcome rotations, no fault
+        for (name, d) in [("seq-d1", 1u32), ("seq-d2", 2), ("seq-d3", 3), ("seq-d4", 4), ("seq-d5", 5)] {
+            let maxd = tier.pick(4, 5, 2) as u32;
+            if d <= maxd {
+                let full = pow(d) * 4 * NP;
+                v.push(gen(name, if tier == Tier::Sanitizer { full.min(40) } else { full }));
+            }
+        }
+        // base sequence x chip x outcome rotation, each with one run per fault position
+        for (name, d) in [("fault-d1", 1u32), ("fault-d2", 2), ("fault-d3", 3)] {
+            let maxd = tier.pick(2, 3, 1) as u32;
+            if d <= maxd {
+                let full = pow(d) * 4 * NP;
+                v.push(gen(name, if tier == Tier::Sanitizer { 6 } else { full }));
+            }
+        }
+        v.push(gen("drop", tier.pick(1, 1, 0) * (DROP_PRE.len() * DROP_POST.len()) as u64 * 4 * NP * DROP_KS));
+        v.push(gen("wan-fault", tier.pick(1, 1, 0) * 4 * NP * 2));
+        v.push(gen("wan-drop", tier.pick(60, 400, 2) * 4 * NP));
+        v
+    }
+    fn rule(&self) -> String {
+        "seq-dN: every sequence of exactly N calls over {init, sleep(warm), sleep(cold), prepare_for_tx, tx, prepare_for_rx(single|continuous|duty), start_rx, complete_rx, rx, rx_switch_channel, listen, prepare_for_cad, cad, set_lora_sync_word, get_rssi} on a freshly constructed LoRa, x {sx1261,sx1262,sx1276,sx1272} x 9 rotations of the chip outcome profiles {done@0/1/12, timeout@1/12, CRC error, header error, spurious+done@1/6}, followed by the probe suffix prepare_for_tx, tx, prepare_for_rx, rx; fault-dN: the same bases, and for each base with K_spi/K_busy/K_irq bus events one run per position with an SPI fault (transaction lost), a BUSY-wait fault (SX126x) or an IRQ-wait fault there; drop: manual receive flows in which wait_for_irq is dropped after k=0..15 polls, with 7 continuations; wan-fault: Class A and Class C call orders of async_device through LorawanRadio with a fault at every position; wan-drop: Class C flow with rx_continuous dropped after every poll count. Class = (chip, call sequence, outcome rotation, fault kind + call index + command byte).".into()
+    }
+    fn assumptions(&self) -> Vec<String> {
+        vec![
+            "clause (a) takes the driver's own radio mode (verif hook) as 'the mode'; mode-guarded calls are tx, start_rx, complete_rx, rx, rx_switch_channel, get_rx_result, cad".into(),
+            "clause (b), SX126x: the wake-up access is a GetStatus transaction (or an empty NSS pulse); any other first byte reaching a sleeping chip is a violation and its command is lost (data sheet 9.3 / 13.1.1: the falling edge of NSS wakes the chip, BUSY stays high until it is ready). SX127x: registers are accessible in sleep mode, so only FIFO access and a TX/RX/CAD request while in sleep mode are flagged".into(),
+            "clause (c): items = packet type (SX127x: LongRangeMode bit), sync word, regulator mode (boards that use DC-DC: both SX126x boards here), TCXO control (boards with a TCXO: the SX1261 and SX1276 boards here), buffer base addresses, modulation, packet parameters, IRQ/DIO parameters, RF frequency. PA configuration is tracked but not asserted (not listed by the statement). An RSSI listen() only depends on packet type, modulation and frequency; CAD on packet type, modulation, IRQ parameters and frequency".into(),
+            "loss of configuration: SX126x on NRESET and on SetSleep without warm start (everything incl. registers; warm start retains everything except the data buffer); SX127x only on NRESET (registers are retained in sleep mode, the FIFO is not). SetPacketType to a different packet type discards modulation and packet parameters (data sheet 13.4.2)".into(),
+            "clause (d) is judged after tx, rx, complete_rx, cad, start_rx, rx_switch_channel and listen returned Err (incl. time-outs) or panicked, unless the call was refused for its mode; the driver-documented exception is honoured: errors of complete_rx/rx while the driver is in continuous receive leave the mode to the caller. 'chip not in standby' and 'chip in standby but driver mode not Standby' carry different signatures; the latter is the strict reading of 'the driver knows it' (the driver's Transmit/Receive/CAD modes also denote the prepared state, in which the chip is in standby)".into(),
+            "an SPI fault means the transaction never reached the chip; a BUSY fault means the command was delivered and the wait on BUSY failed; an IRQ fault means the wait on the interrupt line failed. Faults where the chip executes a command whose SPI transfer reported an error are not generated".into(),
+            "SX126x receive duty cycle: the sleep phases of the chip are not modelled (the chip is treated as awake in RX); SetSleep is accepted from every mode although the data sheet asks for standby; prepare_for_rx(duty) is not generated on SX127x (unsupported, documented)".into(),
+            "SX126x header error in single receive: the chip raises HeaderErr and keeps receiving (the data sheet does not say that it leaves RX); SX127x drops a packet with a bad header silently".into(),
+            "a call that does not return within 10000 polls is recorded as an observation (event no_return_within_poll_budget, note with witness), not as a violation: liveness is not one of the four clauses. Chip event latencies are chosen outside the window between the driver's GetIrqStatus and ClearIrqStatus(all), where an interrupt is lost by the driver".into(),
+            "get_rssi is not in the statement's API alphabet: it is part of the sequences, but a sleeping chip being reached by get_rssi itself is counted as an observation only".into(),
+            "through LorawanRadio the driver's mode is not observable (field is crate-private): only clauses (b), (c) and the chip half of (d) are judged there".into(),
+        ]
+    }
+    fn required_events(&self, tier: Tier) -> Vec<&'static str> {
+        if tier == Tier::Sanitizer {
+            vec!["tx_starts", "rx_starts", "calls_ok"]
+        } else {
+            vec![
+                "tx_starts", "rx_starts", "cad_starts", "wrong_mode_calls", "op_starts_after_a_configuration_loss", "failed_operations", "failed_operations_left_in_standby",
+                "spi_faults_injected", "busy_faults_injected", "irq_faults_injected", "waits_dropped", "adapter_op_starts", "adapter_faults_injected",
+            ]
+        }
+    }
+
+    fn run_case(&self, g: &str, idx: u64, _rng: &mut Prng, col: &mut Collector) {
+        if let Some(d) = g.strip_prefix("seq-d").and_then(|x| x.parse::<u32>().ok()) {
+            let full = pow(d) * 4 * NP;
+            let i = if col.tier == Tier::Sanitizer { idx.wrapping_mul(7919) % full } else { idx };
+            let calls = seq_from_index(i % pow(d), d);
+            let var = VARS[((i / pow(d)) % 4) as usize];
+            let ovar = (i / (pow(d) * 4)) % NP;
+            if unsupported(var, &calls) {
+                return;
+            }
+            let plan = Plan { var, calls, ovar, fault: None, suffix: true };
+            run_plain(&plan, col);
+            return;
+        }
+        if let Some(d) = g.strip_prefix("fault-d").and_then(|x| x.parse::<u32>().ok()) {
+            let full = pow(d) * 4 * NP;
+            let i = if col.tier == Tier::Sanitizer { idx.wrapping_mul(7919) % full } else { idx };
+            let calls = seq_from_index(i % pow(d), d);
+            let var = VARS[((i / pow(d)) % 4) as usize];
+            let ovar = (i / (pow(d) * 4)) % NP;
+            if unsupported(var, &calls) {
+                return;
+            }
+            let plan = Plan { var, calls, ovar, fault: None, suffix: true };
+            run_with_all_faults(&plan, col, if col.tier == Tier::Sanitizer { 5 } else { 1 });
+            return;
+        }
+        match g {
+            "drop" => {
+                let k = (idx % DROP_KS) as u32;
+                let post = DROP_POST[((idx / DROP_KS) % DROP_POST.len() as u64) as usize];
+                let pre = DROP_PRE[((idx / (DROP_KS * DROP_POST.len() as u64)) % DROP_PRE.len() as u64) as usize];
+                let rest = idx / (DROP_KS * (DROP_POST.len() * DROP_PRE.len()) as u64);
+                let var = VARS[(rest % 4) as usize];
+                let ovar = (rest / 4) % NP;
+                let mut calls: Vec<Call> = pre.to_vec();
+                calls.push(Call::WaitIrqCut(k));
+                calls.extend_from_slice(post);
+                let plan = Plan { var, calls, ovar, fault: None, suffix: true };
+                run_plain(&plan, col);
+            }
+            "wan-fault" => {
+                let var = VARS[(idx % 4) as usize];
+                let ovar = (idx / 4) % NP;
+                let steps = if (idx / (4 * NP)) % 2 == 0 { FLOW_A.to_vec() } else { flow_c([40, 40, 40]) };
+                run_wan_with_all_faults(&WanPlan { var, steps, ovar, fault: None }, col);
+            }
+            "wan-drop" => {
+                let var = VARS[(idx % 4) as usize];
+                let ovar = (idx / 4) % NP;
+                let k = (idx / (4 * NP)) as u32;
+                // each of the three cuts sweeps the poll count in turn, the others stay long
+                for which in 0..3 {
+                    let mut cuts = [60u32, 60, 60];
+                    cuts[which] = k;
+                    run_wan(&WanPlan { var, steps: flow_c(cuts), ovar, fault: None }, col);
+                }
+            }
+            _ => unreachable!(),
+        }
+    }
 }
